@@ -76,6 +76,8 @@ theorem send_guard_framed (c : Cfg) (hg : c.guard = true) (m : XNode) (hn : name
   split at h
   · cases h
   · rename_i hf
+    split at h
+    · cases h
     cases h
     have hmf : MF (render c.wsRefs m) := by
       rw [mf_iff_find]
@@ -274,6 +276,46 @@ theorem fragment_marker_cex :
   have := WFC.empty (F := fun _ => False) b!"a" [b!"x"] b!" x=\"]]>]]>\"" [] (by decide)
     (AttrsWF.cons b!"x" b!"]]>]]>" [] [] (by decide) hv AttrsWF.nil) (by decide) WFC.nil
   simpa using this
+
+/-! ## characters XML cannot carry -/
+
+/-- **repaired `to_xml`** (`charGuard`): every message that is sent consists of XML 1.0 `Char`s
+only — whatever the caller put into text values, attribute values, payloads and fragments. -/
+theorem sent_chars_ok (c : Cfg) (hg : c.charGuard = true) (m : XNode) (w : List Nat)
+    (h : send c m = some w) : charsOk w = true := by
+  unfold send at h
+  split at h
+  · cases h
+  · split at h
+    · cases h
+    · rename_i hx
+      cases h
+      cases hc : charsOk (toWire c.wsRefs m) with
+      | true => rfl
+      | false => simp [hg, hc] at hx
+
+/-- a refusal has one of the two stated reasons (no other path to `none`) -/
+theorem refused_only_for_reason (c : Cfg) (m : XNode) (h : send c m = none) :
+    (c.guard = true ∧ (find marker (render c.wsRefs m)).isSome = true) ∨
+    (c.charGuard = true ∧ charsOk (toWire c.wsRefs m) = false) := by
+  unfold send at h
+  split at h
+  · rename_i h1; left; simpa using h1
+  · split at h
+    · rename_i h2; right; simpa using h2
+    · cases h
+
+/-- **D19**: the code of the pinned snapshot sends a log message containing U+0001 as it is — the
+message is not an XML document (no conforming parser accepts the byte, escaped or not); the
+repaired `to_xml` refuses it. -/
+theorem control_char_sent_cex :
+    send .pinned (request .pinned 1 (.commitConfiguration false none none (some [1]) none)) =
+      some b!"<rpc message-id=\"1\"><commit-configuration><log>\x01</log></commit-configuration></rpc>]]>]]>" ∧
+    send .fixed (request .fixed 1 (.commitConfiguration false none none (some [1]) none)) = none := by
+  refine ⟨by decide, by decide⟩
+
+/-- U+FFFE / U+FFFF are refused as well, U+FFFD and supplementary-plane text pass -/
+example : charsOk [97, 239, 191, 189, 98, 240, 157, 132, 158] = true ∧ charsOk [97, 239, 191, 190] = false ∧ charsOk [239, 191, 191] = false := by decide
 
 /-! ## non-vacuity -/
 
